@@ -8,7 +8,7 @@ the ROM/RAM windows for a cartridge control write (the RAM window for a cartridg
 effects DIV→TIMA, TAC→TIMA, TMA→TIMA (reload cycle), LCDC→STAT/LY, DMA→OAM.  The theorems are about the
 machine bus model behind the documented decoder (see the header of Proofs/C06.lean for the tie to mapper.go).
 
-FULL statement of the property (not yet proved):
+FULL statement of the property (proved in Proofs/C07Whole.lean as `c07_frame_whole`, with the sound block as ONE footprint):
     ∀ s a v b, a < 0x10000 → b < 0x10000 → busWrite W s a v = some s' → ¬ footprint a b → peek R s' b = peek R s b
   where for a in FF10–FF3F the footprint is the documented one inside the sound unit (NR52 power-off clears the
   registers, trigger/envelope/sweep/DAC writes change NR52 status bits, wave RAM).
